@@ -195,4 +195,80 @@ SolvesSystem(vs) ==
 GhostMatters(m) ==
   \E s \in ExplAbs(m) \cap Lst(m) : \E a \in Ac(m) :
      m.P[s][a][s] # m.PD \/ \E t \in St(m) : m.P[s][a][t] > 0 /\ m.R[s][a][t] # 0
+
+\* ---------------------------------------------------------------- tiny probabilities, symbolically
+\* Controllers whose rows contain entries like 1e-9 cannot be written as integers over a common
+\* denominator inside 32 bits.  They are modelled with a SYMBOLIC small parameter e > 0:
+\*   Pr(a | node n)     = (psi[n][a] + psie[n][a] * e) / QD      (row: sum psi = QD, sum psie = 0)
+\*   Pr(initial node n) = (iota[n]   + iotae[n]   * e) / ND      (sum iota = ND, sum iotae = 0)
+\* (an entry whose constant part is 0 must have a coefficient >= 0; eta stays constant).  All node-side
+\* weights become polynomials in e with small integer coefficients: a polynomial is a function
+\* 1..LP -> Int, index i holding the coefficient of e^(i-1).  Every identity below holds for ALL e, the
+\* harness evaluates the emitted polynomials at concrete values (1e-5, 1e-9, 1e-12) with exact rationals.
+LP == 7
+PZero == [i \in 1..LP |-> 0]
+PLin(c, d) == [i \in 1..LP |-> IF i = 1 THEN c ELSE IF i = 2 THEN d ELSE 0]
+PAdd(p, q) == [i \in 1..LP |-> p[i] + q[i]]
+PScale(k, p) == [i \in 1..LP |-> Safe(k * p[i])]
+PDeg(p) == IF \A i \in 1..LP : p[i] = 0 THEN 0 ELSE CHOOSE i \in 1..LP : p[i] # 0 /\ \A j \in (i + 1)..LP : p[j] = 0
+PMul(p, q) ==
+  IF PDeg(p) + PDeg(q) > LP + 1 THEN Assert(FALSE, <<"polynomial degree guard", p, q>>)
+  ELSE TLCEval([i \in 1..LP |-> SumTo([j \in 1..i |-> IF p[j] = 0 \/ q[i - j + 1] = 0 THEN 0 ELSE Safe(p[j] * q[i - j + 1])], i)])
+\* sign for all sufficiently small e > 0 = sign of the lowest non-zero coefficient
+PLow(p) == IF \A i \in 1..LP : p[i] = 0 THEN 0 ELSE CHOOSE i \in 1..LP : p[i] # 0 /\ \A j \in 1..(i - 1) : p[j] = 0
+PSign(p) == IF PLow(p) = 0 THEN 0 ELSE IF p[PLow(p)] > 0 THEN 1 ELSE -1
+RECURSIVE PSumTo(_, _)
+PSumTo(f, k) == IF k = 0 THEN PZero ELSE PAdd(f[k], PSumTo(f, k - 1))
+
+PsiP(m, n, a) == PLin(m.psi[n][a], m.psie[n][a])
+IotaP(m, n) == PLin(m.iota[n], m.iotae[n])
+TinyWellFormed(m) ==
+  /\ \A n \in Nd(m) :
+        /\ SumTo(m.psie[n], m.K) = 0
+        /\ \A a \in Ac(m) : PSign(PsiP(m, n, a)) >= 0
+  /\ SumTo(m.iotae, m.NN) = 0
+  /\ \A n \in Nd(m) : PSign(IotaP(m, n)) >= 0
+
+\* node weight vectors of polynomials; canonical form: divided by the gcd of all coefficients and by the
+\* largest common power of e (both are positive scalars, so the distribution is unchanged)
+PVecGcd(m, w) == GCDTo([n \in Nd(m) |-> GCDTo(w[n], LP)], m.NN)
+PVecLow(m, w) ==
+  LET lows == {PLow(w[n]) : n \in {k \in Nd(m) : PLow(w[k]) # 0}} IN
+  IF lows = {} THEN 0 ELSE MinSet(lows)
+PVecReduce(m, w) ==
+  LET g == PVecGcd(m, w) sh == PVecLow(m, w) IN
+  IF g = 0 THEN w
+  ELSE TLCEval([n \in Nd(m) |-> [i \in 1..LP |-> IF i + sh - 1 <= LP THEN w[n][i + sh - 1] \div g ELSE 0]])
+PVecSum(m, w) == PSumTo(w, m.NN)
+InitNodesP(m) == PVecReduce(m, TLCEval([n \in Nd(m) |-> IotaP(m, n)]))
+\* action mixture (over QD * PVecSum) and Bayes update of the node weights, as in ActW / NodePost
+ActP(m, w, a) == PSumTo(TLCEval([n \in Nd(m) |-> PMul(w[n], PsiP(m, n, a))]), m.NN)
+ActRowP(m, w) == TLCEval([a \in Ac(m) |-> ActP(m, w, a)])
+NodePostP(m, w, a, o) ==
+  TLCEval([k \in Nd(m) |->
+     PSumTo(TLCEval([n \in Nd(m) |-> IF m.eta[n][a][o][k] = 0 THEN PZero
+                                      ELSE PScale(m.eta[n][a][o][k], PMul(w[n], PsiP(m, n, a)))]), m.NN)])
+NodeStepP(m, w, a, o) == PVecReduce(m, NodePostP(m, w, a, o))
+RECURSIVE NodeForwardP(_, _)
+NodeForwardP(m, h) ==
+  IF Len(h) = 0 THEN TLCEval([n \in Nd(m) |-> IotaP(m, n)])
+  ELSE LET e == h[Len(h)] IN NodePostP(m, NodeForwardP(m, SubSeq(h, 1, Len(h) - 1)), e.a, e.o)
+\* joint forward weights over (node, state) by the definition of the controller (as JointAlpha)
+JointInitP(m) == TLCEval([n \in Nd(m) |-> [s \in St(m) |-> PScale(m.p0[s], IotaP(m, n))]])
+JointPostP(m, al, a, o) ==
+  TLCEval([k \in Nd(m) |-> TLCEval([t \in St(m) |->
+     IF m.O[a][t][o] = 0 THEN PZero
+     ELSE PScale(m.O[a][t][o],
+            PSumTo(TLCEval([n \in Nd(m) |->
+               IF m.eta[n][a][o][k] = 0 THEN PZero
+               ELSE PScale(m.eta[n][a][o][k],
+                      PMul(PsiP(m, n, a),
+                           PSumTo(TLCEval([s \in St(m) |->
+                              IF s \in ExplAbs(m) \/ m.P[s][a][t] = 0 THEN PZero
+                              ELSE PScale(m.P[s][a][t], al[n][s])]), m.N)))]), m.NN))])])
+RECURSIVE JointAlphaP(_, _)
+JointAlphaP(m, h) ==
+  IF Len(h) = 0 THEN JointInitP(m)
+  ELSE LET e == h[Len(h)] IN JointPostP(m, JointAlphaP(m, SubSeq(h, 1, Len(h) - 1)), e.a, e.o)
+JSumP(m, al) == PSumTo(TLCEval([n \in Nd(m) |-> PSumTo(al[n], m.N)]), m.NN)
 =============================================================================
